@@ -185,6 +185,12 @@ def _drive(sim, kind, kern, r, now, patt, protos, sf, cf, closing, closer, half,
             p.transport.abortConnection()
         else:
             p.transport.loseWriteConnection()
+            if sim.draw_bool(0.3, "lose_right_after_halfclose"):
+                # loseConnection() while the requested half-close (and the data before it) is still pending
+                state["closer_also_lost"] = True
+                sim.event(side, "lose-after-own-halfclose")
+                sim.probe("lose_after_own_halfclose")
+                p.transport.loseConnection()
 
     def peer_close():
         side = other[closer]
@@ -278,7 +284,7 @@ def _drive(sim, kind, kern, r, now, patt, protos, sf, cf, closing, closer, half,
                     idle_rounds = 0
                     continue
                 if (both and closing == "halfclose" and not state["peer_closed"] and protos[other[closer]].read_lost
-                        and not protos[other[closer]].lost and not protos[closer].lost):
+                        and not protos[other[closer]].lost):
                     peer_close()
                     idle_rounds = 0
                     continue
@@ -328,9 +334,15 @@ def _oracle(sim, kind, kern, protos, cf, written, wac, patt, closing, closer, ha
             sim.check("all-bytes-before-halfclose-delivered", len(pr.got) == wac[closer], wit,
                       "%s wrote %d bytes before loseWriteConnection, peer received %d" % (closer, wac[closer], len(pr.got)))
         if half:
-            sim.check("readConnectionLost-once", pr.read_lost == 1, wit, "peer.readConnectionLost called %d times" % pr.read_lost)
-            sim.check("writeConnectionLost-once", c.write_lost == 1, wit, "closer.writeConnectionLost called %d times" % c.write_lost)
             if not rst:
+                sim.check("readConnectionLost-once", pr.read_lost == 1, wit, "peer.readConnectionLost called %d times" % pr.read_lost)
+            else:
+                sim.check("readConnectionLost-at-most-once", pr.read_lost <= 1, wit, "peer.readConnectionLost called %d times" % pr.read_lost)
+            if state.get("closer_also_lost"):
+                sim.check("writeConnectionLost-at-most-once", c.write_lost <= 1, wit, "closer.writeConnectionLost called %d times" % c.write_lost)
+            else:
+                sim.check("writeConnectionLost-once", c.write_lost == 1, wit, "closer.writeConnectionLost called %d times" % c.write_lost)
+            if not rst and not state.get("closer_also_lost"):
                 sim.check("halfclose-peer-bytes-delivered", len(c.got) == written[other[closer]], wit,
                           "peer wrote %d bytes (some after the half-close), closer received %d" % (written[other[closer]], len(c.got)))
         if not rst:
